@@ -30,7 +30,7 @@ def run(ctx):
     ctx.not_decided = 'rendering output (ratatui widgets); memory bounds of the per-id maps (K-C20-unbounded-maps); the headless renderers of rip-cli are covered by the thorough tier only.'
     ctx.rule('C20.1', 'keyed lookup verifies the key: a FrameStore method that takes a seq and yields a position / frame compares the seq of the frame it found with the requested seq on the way to Some(..) (position arithmetic seq - base_seq alone assumes consecutive seqs).')
     ctx.rule('C20.2', 'no panic in the fold: in everything reachable from TuiState::update, FrameStore::* and summary::* there is no unwrap / expect / panic, every Sub-overflow assert is reachable only through the not-less edge of the matching comparison, every division has a non-zero constant divisor, every `+ 1` is inside the true edge of a `<` test on the same variable, and every string slice is preceded by an is_char_boundary scan of its start.')
-    ctx.rule('C20.3', 'determinism: the same closure reads no clock, randomness, environment, and iterates no hash container.')
+    ctx.rule('C20.3', 'determinism: the same closure reads no clock, randomness, environment, and iterates no hash container; nor does any other function of rip_tui (state accessors and headless renderers read the folded state back).')
     ctx.rule('C20.4', 'growth without eviction: every container field of TuiState that update grows is also shrunk or bounded in the same closure.')
 
     # ---------------------------------------------------------------- C20.1
@@ -174,6 +174,21 @@ def run(ctx):
             if eff in d:
                 hits.append((P.chain(par, p), d[eff][0]))
         ctx.ob('C20.3', 'rip_tui', 'deterministic:' + eff, not hits, ('no %s effect in the fold' % eff) if not hits else '%s: %s at %s' % (eff, ' -> '.join(hits[0][0][-3:]), hits[0][1].callee),
+               line=hits[0][1].line if hits else 0)
+
+    # what is read back from the state (accessors, renderers) must be as deterministic as the fold:
+    # the whole rip_tui crate — state accessors and the headless renderers included — is scanned
+    crate_fns = [g for g in P.fns.values() if g.crate == 'rip_tui']
+    ctx.floor('C20.3', 'functions in rip_tui', len(crate_fns), 60)
+    for eff in ('Clock', 'Random', 'Env', 'HashOrder'):
+        hits = []
+        for g in crate_fns:
+            d = E.direct(g.path)
+            if eff in d:
+                hits.append((g, d[eff][0]))
+        ctx.ob('C20.3', 'rip_tui', 'crate-deterministic:' + eff, not hits,
+               ('no %s effect anywhere in rip_tui (%d functions: fold, accessors, renderers)' % (eff, len(crate_fns))) if not hits else
+               '%s in %s: %s — the same frames no longer give the same %s' % (eff, hits[0][0].path, hits[0][1].callee, 'rendering / accessor result' if eff == 'HashOrder' else 'state'),
                line=hits[0][1].line if hits else 0)
 
     # ---------------------------------------------------------------- C20.4
